@@ -195,6 +195,12 @@ def run(loader, R, tier):
                     % (short(f["qn"]), short(K), why))
     R.floor("construction sites of Max/Min/Xor", nsites, 4)
 
+    # ---------------------------------------------------------------- R4.3
+    # complementary literals: x together with Not(x) must merge whichever
+    # operand brought them in (directly or through a nested And/Or)
+    from rules.c03 import complementary_probe
+    complementary_probe(prog, R, "R4.3")
+
 
 MANIFEST = dict(
     technique="type rule on the class table + intraprocedural flow rule "
@@ -205,9 +211,11 @@ MANIFEST = dict(
          "(Add, Mul, And, Or), and every Max/Min/Xor is built from an "
          "unmodified copy of a RCPBasicKeyLess set, so that storage order is "
          "a function of the operand multiset for all permutations and "
-         "bracketings. Does not decide the merge rules (coefficient "
-         "collection, power combination, flattening, complementary "
-         "literals), which depend on run-time values.",
+         "bracketings; and that and_or<> looks for complementary literals "
+         "over the flattened container it constructs from, after the last "
+         "insertion (so the merge does not depend on grouping). Does not "
+         "decide the other merge rules (coefficient collection, power "
+         "combination), which depend on run-time values.",
     note="Together with C01 (hash) and C02 (__cmp__) this makes container "
          "order canonical.",
     ref="§2 C04",
